@@ -57,6 +57,7 @@ type FuncSpec struct {
 	Driver    bool   // driver-level target (ghost I/O, fail-stop obligations)
 	AssumePre bool   // callee preconditions assumed, not proved
 	Given     []string // statements establishing the initial state of the case
+	Calls     map[string][]*Clause // assertions at the calls of a callee (by short name)
 	ExitNonZero bool // os.Exit must be called with a non-zero status
 }
 
